@@ -142,7 +142,9 @@ MUTANTS = [
          "if self._internal_state[cell]\n                        and cell not in self._internal_state.cells.nearby_cells(active_cell))",
          "if self._internal_state[cell])", "R10.1"),
     Edit("excluded tagger iterates all cells", T + "excluded_cells_tagger.py",
-         "for nearby_cell in self._internal_state.cells.nearby_cells(active_cell)", "for nearby_cell in self._internal_state.cells.yield_cells()", "R10.1"),
+         "for nearby_cell in sorted(self._internal_state.cells.nearby_cells(active_cell),\n"
+         "                                                  key=lambda cell: cell.identifier)",
+         "for nearby_cell in self._internal_state.cells.yield_cells()", "R10.1"),
     Edit("veto tables over all cells", "jellyfysh/event_handler/abstracts/cell_veto_event_handler.py",
          "            if cell not in self._cells.nearby_cells(cells.zero_cell):", "            if True:", "R10.2"),
     Edit("surplus tagger removed from cell_veto.ini", D + "coulomb_atoms/cell_veto.ini",
@@ -160,6 +162,11 @@ MUTANTS = [
          "target_cell = self._cells.translate(active_cell, relative_cell)", "target_cell = relative_cell", "R10.2"),
 ]
 TWINS = [
+    Edit("excluded tagger iterates the nearby cells as a list", T + "excluded_cells_tagger.py",
+         "for nearby_cell in sorted(self._internal_state.cells.nearby_cells(active_cell),\n"
+         "                                                  key=lambda cell: cell.identifier)",
+         "for nearby_cell in list(sorted(self._internal_state.cells.nearby_cells(active_cell),\n"
+         "                                                       key=lambda cell: cell.identifier))"),
     Edit("nearby cells bound to a local first", T + "excluded_cells_tagger.py",
          "        for active_cell, active_identifier in self._internal_state.yield_active_cells():\n",
          "        for active_cell, active_identifier in self._internal_state.yield_active_cells():\n            _ = active_cell\n"),
